@@ -232,6 +232,42 @@ Theorem C18_rf4ce_missing_address_is_reported :
     (rf_sec (r_fctl x) = true -> exists b, rf_decrypt E std_variant key x = RTuple b false).
 Proof. exact rf_missing_address_dedicated. Qed.
 
+(** Addressing: the 8-byte source / destination are the caller's argument when given, else the long
+    address of the 802.15.4 header (mode 3); short addresses, absent fields and a missing MAC layer
+    provide none. *)
+Theorem C18_rf4ce_address_resolution :
+  forall arg h a, rf_resolve arg h = Some a <-> (arg = Some a \/ (arg = None /\ h = Some (AMLong a))).
+Proof. exact rf_resolve_spec. Qed.
+
+(** Self-inverse for EVERY combination of source / destination addressing mode (none, short, long,
+    no MAC layer) and caller-supplied source / destination (given, absent) in which both addresses
+    are available to sender and receiver. *)
+Theorem C18_rf4ce_self_inverse_addressing :
+  forall E : bytes -> bytes -> bytes,
+    (forall k b, length (E k b) = 16) ->
+    forall key x asrc adst hsrc hdst dasrc dadst src dst,
+      rf_wf x ->
+      rf_resolve asrc hsrc = Some src -> rf_resolve adst hdst = Some dst ->
+      rf_resolve dasrc hsrc = Some src -> rf_resolve dadst hdst = Some dst ->
+      let fa := N.lor (N.lor (r_fctl x) 32) 4 in
+      let has_mac := match hsrc with Some _ => true | None => false end in
+      exists w x' tag,
+        rf_encrypt E std_variant key (rf_with_addrs x asrc adst hsrc hdst) = RPkt w /\
+        rf_parse (length (r_pre x)) (rf_resolve dasrc hsrc) (rf_resolve dadst hdst) has_mac w = Some x' /\
+        length tag = 4 /\
+        rf_decrypt E std_variant key x' = RTuple (r_pre x ++ rf_nwk fa (r_fc x) (r_hdr x) (r_payload x) tag) true.
+Proof. exact rf_self_inverse_addressing. Qed.
+
+(** In every other combination (source, or destination, neither given nor long in the header) the
+    missing address is reported: (packet, False), no exception, nothing protected. *)
+Theorem C18_rf4ce_missing_address_is_reported_addressing :
+  forall (E : bytes -> bytes -> bytes) key x asrc adst hsrc hdst,
+    (asrc = None /\ rf_header_long hsrc = None) \/ (adst = None /\ rf_header_long hdst = None) ->
+    (exists b, rf_encrypt E std_variant key (rf_with_addrs x asrc adst hsrc hdst) = RTuple b false) /\
+    (rf_sec (r_fctl x) = true ->
+     exists b, rf_decrypt E std_variant key (rf_with_addrs x asrc adst hsrc hdst) = RTuple b false).
+Proof. exact rf_missing_address_addressing. Qed.
+
 Theorem C18_rf4ce_no_header_is_MissingRF4CEHeader :
   forall (E : bytes -> bytes -> bytes) v key,
     rf_encrypt_top E v key None = RRaise MissingHeader /\ rf_decrypt_top E v key None = RRaise MissingHeader.
